@@ -25,6 +25,19 @@ def main(argv=None):
     ap.add_argument("--no-selftest", action="store_true")
     a = ap.parse_args(argv)
     prop = a.prop.upper()
+    # guard rails: an analysis that explodes must end as ANALYSIS-ERROR, not take the machine down
+    import resource, signal
+    try:
+        resource.setrlimit(resource.RLIMIT_AS, (12 << 30, 12 << 30))
+    except (ValueError, OSError):
+        pass
+    budget = int(os.environ.get("PTSTAT_TIMEOUT", "240" if a.tier == "quick" else "3000"))
+
+    def _timeout(signum, frame):
+        print(f"ANALYSIS-ERROR property={prop} analysis exceeded its time budget of {budget}s", flush=True)
+        os._exit(2)
+    signal.signal(signal.SIGALRM, _timeout)
+    signal.alarm(budget)
     try:
         mod = importlib.import_module(f"rules.{prop}")
     except ModuleNotFoundError as exc:
